@@ -8,6 +8,7 @@ import (
 	"strings"
 	"testing"
 
+	"github.com/inspirer/textmapper/compiler"
 	"pgregory.net/rapid"
 
 	"verif/harness/internal/batch"
@@ -147,6 +148,26 @@ func TestDebugC11Viable(t *testing.T) {
 			v := respec.ViablePrefix([]*respec.Node{r.node()}, []respec.Env{env}, in[off:], c.bytes())
 			lens, _ := respec.MatchLens(r.node(), env, in[off:])
 			fmt.Printf("rule %s at %d: viable=%d match=%v\n", r.Token, off, v, lens)
+		}
+	}
+}
+
+// TestDebugSets compiles VERIF_DEBUG_FILE and prints Grammar.Sets.
+func TestDebugSets(t *testing.T) {
+	path := os.Getenv("VERIF_DEBUG_FILE")
+	if path == "" || os.Getenv("VERIF_DEBUG_SETS") == "" {
+		t.Skip("debug helper")
+	}
+	data, _ := os.ReadFile(path)
+	out, err := compiler.Compile(context.Background(), "g.tm", string(data), compiler.Params{})
+	fmt.Println("ERR:", err != nil)
+	if out != nil {
+		for _, s := range out.Sets {
+			var names []string
+			for _, x := range s.Terminals {
+				names = append(names, out.Syms[x].Name)
+			}
+			fmt.Println(s.Name, names)
 		}
 	}
 }
